@@ -336,12 +336,27 @@ def r4_margin(chk):
 
 
 def r5_mean(chk):
+    aud.keeps_no_state(chk, "C02.R5", REL, ["Assorter.mean", "Assorter.sum", "Assorter.assort", "CVR.get_vote_for", "CVR.has_one_vote", "CVR.as_vote"],
+                       "the mean is recomputed from the CVRs handed in")
     mf = aud.mean_facts(chk)
     want_f = spec.cond_term("(not use_style) or c.has_contest(self.contest.id)")
     ok = mf["filter"] is not None and aud.cond_equiv(mf["filter"], want_f)[0] and mf["over_filtered"]
     chk.ob("C02.R5", W("Assorter.mean"), "mean-population", ok,
            "the mean is over exactly the cards that list the contest when use_style, all cards otherwise (numerator and denominator "
            "over the same cards)", node=mf["node"], strength="N", **mf["detail"])
+    # ... of the list the caller handed in: the margin "from these CVRs" (which the tally margin equals) is taken over that very
+    # list, with the style filter of the mean deciding which cards count -- not over a copy filtered on the way down
+    aud.same_name_arguments(chk, "C02.R5", REL, "Assertion.set_all_margins_from_cvrs", "Assertion.set_margin_from_cvrs",
+                            "the CVR list reaches the margin computation as given", strict=True)
+    smc = chk.fn(REL, "Assertion.set_margin_from_cvrs")
+    pars = [a.arg for a in smc.args.args]
+    calls = [c for c in walk_local(smc) if isinstance(c, ast.Call) and norm(c.func) == "self.assorter.mean"]
+    from ..canon import expand_locals
+    ok = len(calls) == 1 and "cvr_list" in pars and calls[0].args and norm(expand_locals(calls[0].args[0], smc, stop=("cvr_list",))) == "cvr_list" \
+        and not any(isinstance(x, ast.Name) and x.id == "cvr_list" and isinstance(x.ctx, (ast.Store, ast.Del)) for x in walk_local(smc))
+    chk.ob("C02.R5", W("Assertion.set_margin_from_cvrs"), "mean-of-the-list-handed-in", ok,
+           "the margin is 2 * (the assorter's mean over the CVR list handed in) - 1: the list is passed to Assorter.mean as given",
+           node=calls[0] if calls else smc, strength="N")
 
 
 def r6_tally_rule(chk):
